@@ -11,7 +11,7 @@ RULE = ('complete enumeration of order x mode sizes x operator rank x dtype/fami
         'two steps, three varying steps) x base step; per point: explicit Euler, implicit Euler and trapezoidal rule (als/mals '
         'x solve/lu, maximal-rank guess), HOD (orders 2,3,4,6; with/without previous_value; with/without prebuilt op_hod), all '
         'with normalize in {0,2} (and 1 on the Markov family), every state of every trajectory compared with the dense '
-        'recurrence; the three error estimators on arbitrary (non-trajectory) lists; plus the adaptive controller lattice '
+        'recurrence; the three error estimators on arbitrary (non-trajectory) lists, also on states of TT rank 56 (above the default rank cap of the integrators); plus the adaptive controller lattice '
         '(second method x solver x normalize x time_end x first step x tolerances) with accept/reject/clamp branch counters. '
         'Non-trivial: varying step sizes, normalisation, complex data, or an initial rank > 1.')
 ASSUMPTIONS = ['NumPy recurrences on the matricised operator are the reference', 'operators scaled to spectral norm 1 so that I -/+ hA is well conditioned',
@@ -42,6 +42,8 @@ def cases(tier):
                         for sl in (STEPLISTS if not q else ('const2', 'vary3', 'close3', 'tiny_fast')):
                             for h in ((0.1, 0.01) if not q else (0.1,)):
                                 yield {'kind': 'schemes', 'dims': list(dims), 'ro': ro, 'fam': fam, 'rx': rx, 'steps': sl, 'h': h}
+    for cplx in (False, True):
+        yield {'kind': 'bigrank', 'dims': [56, 56], 'c': cplx}
     for dims in ([2, 2], [3, 2], [2, 2, 2]):
         for sm in ('two_step_Euler', 'trapezoidal_rule'):
             for solver in ('solve', 'lu'):
@@ -92,7 +94,37 @@ def run_case(case, seed):
     with quiet():
         if case['kind'] == 'schemes':
             return run_schemes(case, r, rng)
+        if case['kind'] == 'bigrank':
+            return run_bigrank(case, r, rng)
         return run_adaptive(case, r, rng)
+
+
+def run_bigrank(case, r, rng):
+    """the error estimators take no rank cap: they must return the exact defect also for states of TT rank > 50"""
+    from scikit_tt.tensor_train import TT
+    from scikit_tt.solvers import ode
+    dims = case['dims']; n = dims[0]
+    c = case['c']
+    r.nontrivial = True
+
+    def rnd(shape):
+        a = rng.standard_normal(shape)
+        return a + 1j * rng.standard_normal(shape) if c else a
+    A1, A2 = rnd((n, n)) / n, rnd((n, n)) / n
+    op = TT([A1.reshape(1, n, n, 1), A2.reshape(1, n, n, 1)])             # Kronecker-structured operator (rank 1)
+    A = np.kron(A1, A2)
+    xs = [TT([rnd((1, n, 1, n)), rnd((n, n, 1, 1)) / n]) for _ in range(3)]      # full TT rank 56 > 50
+    xv = [np.einsum('aibc,cjde->ij', t.cores[0], t.cores[1]).reshape(-1) for t in xs]
+    hs = [0.1, 0.05]
+    I = None
+    we = [np.linalg.norm(xv[k + 1] - (xv[k] + hs[k] * A @ xv[k])) / np.linalg.norm(xv[k]) for k in range(2)]
+    wi = [np.linalg.norm(xv[k + 1] - hs[k] * A @ xv[k + 1] - xv[k]) / np.linalg.norm(xv[k]) for k in range(2)]
+    wt = [np.linalg.norm(xv[k + 1] - 0.5 * hs[k] * A @ xv[k + 1] - xv[k] - 0.5 * hs[k] * A @ xv[k]) / np.linalg.norm(xv[k] + 0.5 * hs[k] * A @ xv[k]) for k in range(2)]
+    for name, f, w in (('errors_expl_euler', ode.errors_expl_euler, we), ('errors_impl_euler', ode.errors_impl_euler, wi), ('errors_trapezoidal', ode.errors_trapezoidal, wt)):
+        with r.op(name + ':large-rank:call'):
+            got = f(op, xs, list(hs))
+            r.close(name + ':large-rank:value', np.asarray(got, dtype=float), np.asarray(w), 1e-8, 'states of TT rank %d' % n)
+    return r
 
 
 def compare_traj(r, key, sol, want, x0obj, dims, tol=1e-8):
@@ -247,9 +279,15 @@ def run_adaptive(case, r, rng):
             r.true('adaptive:strictly-increasing', all(b > a for a, b in zip(ts[:-1], ts[1:])), 'time steps %s' % ts[:6])
             r.true('adaptive:not-beyond-end', ts[-1] <= case['te'] + 0.0, 'last %r end %r' % (ts[-1], case['te']))
             r.true('adaptive:initial-identity', sol[0] is x0t)
-            for s in sol:
+            for kk, s in enumerate(sol):
                 mp = meta_problem(s)
-                r.true('adaptive:meta', mp is None, mp)
+                if r.true('adaptive:meta', mp is None, mp) and kk > 0:
+                    v = vec(s)
+                    if case['nz'] == 1 and np.min(np.real(v)) < -1e-12:
+                        r.count('adaptive_state_not_nonnegative_1norm_skipped')      # the signed "1-norm" is documented for non-negative tensors only
+                        continue
+                    nrm = np.sum(np.abs(v)) if case['nz'] == 1 else np.linalg.norm(v)
+                    r.true('adaptive:unit-norm', abs(nrm - 1) <= 1e-9, 'accepted state %d has %d-norm %r (second method %s)' % (kk, case['nz'], nrm, case['sm']))
     finally:
         sle.als = orig
     r.true('adaptive:inputs-unchanged', unchanged(op, sO) and unchanged(x0t, sX) and unchanged(guess, sG), 'operator, initial value or guess modified')
